@@ -200,6 +200,8 @@ def one_param_configs(name, extra, bounds, chk, gw=False, tests=(None,), with_up
                 outs += [[b + 1e-3 * w, 0.5], [b + 0.37 * w, 0.5]]
             if a > 0:
                 outs = [o for o in outs if o[0] > 0] + ([[a * 0.5, 0.5]] if t != "lower" else [])
+            if len(outs) == 1:
+                outs = outs * 2
             if t != "detect":
                 c["outside"] = outs
             c["label"] = f"{'gw:' if gw else ''}{name}{tag}|{json.dumps(extra, sort_keys=True)}|b={bounds}|upd={'y' if upd else 'n'}|test={t}"
@@ -335,11 +337,41 @@ def gen_configs(chk, reg):
                         add([c], cls, kw)
             else:
                 unclassified.append(f"{name} -> {cls}")
-    for c, cls in combined_configs(chk):
+    for c, cls in combined_configs(chk) + regression_configs(chk):
         c["expect_reject"] = False
         c["cls"] = cls
         cfgs.append(c)
     return cfgs, unclassified
+
+
+def regression_configs(chk):
+    """Small deterministic configurations that pin the inputs of the known findings and the single-point batch."""
+    out = []
+    # a batch of ONE point (length-1 array), with and without a duplicating inversion
+    for name, t in (("default", None), ("logit", None), ("inversion", "lower"), ("inversion-duplicate", "upper"), ("angle", None)):
+        b = (0.0, 2 * PI) if name == "angle" else (-3.7, 12.9)
+        c = make_cfg(["x", "y"], {"x": b, "y": (0.0, 1.0)}, {"x": {"reparameterisation": name}}, [[b[0] + 0.3 * (b[1] - b[0]), 0.5]])
+        if t is not None:
+            c["test"] = t
+        c["radii"] = [1.3]
+        c["label"] = f"single-point batch|{name}|test={t}"
+        out.append((c, "SinglePoint"))
+    # explicit multi-character parameter name with estimate_scale / estimate_shift, used before any update()
+    pts = [[-3.0 + k, 0.1 * k + 0.05] for k in range(6)]
+    c = make_cfg(["x3", "y"], {"x3": (-3.7, 12.9), "y": (0.0, 1.0)}, {"x3": {"reparameterisation": "zscore"}}, pts)
+    c["label"] = "zscore on parameter 'x3' given as a string, no update"
+    out.append((c, "ScaleAndShift"))
+    c = make_cfg(["x3", "y"], {"x3": (-3.7, 12.9), "y": (0.0, 1.0)}, {"x3": {"reparameterisation": "zscore"}}, pts,
+                 update=[[0.5 * k, 0.5] for k in range(7)])
+    c["label"] = "zscore on parameter 'x3' given as a string, after update"
+    out.append((c, "ScaleAndShift"))
+    # log / logit post-rescaling together with boundary inversion (accepted at construction)
+    for t in ("lower", False):
+        c = make_cfg(["x", "y"], {"x": (0.0, 1.0), "y": (0.0, 1.0)},
+                     {"x": {"reparameterisation": "logit", "boundary_inversion": True}}, [[0.1 * k + 0.05, 0.5] for k in range(8)], test=t)
+        c["label"] = f"logit + boundary_inversion|test={t}"
+        out.append((c, "RescaleToBounds"))
+    return out
 
 
 def combined_configs(chk):
@@ -567,6 +599,10 @@ def direct_predicate(c, r):
         if r.get("error") and r.get("stage") == "construct":
             return fails
         return [("not-rejected", f"option combination must be refused at construction, got {r.get('error', 'accepted')}", None)]
+    if r.get("error") and r.get("stage") == "construct" and any(
+            cls in ("RescaleToBounds", "DistanceReparameterisation") and kw.get("post_rescaling") in ("logit", "log")
+            and kw.get("boundary_inversion") for cls, kw, par in merged_kwargs(c)):
+        return fails   # log / logit post-rescaling with boundary inversion: refusing it up front is the repair of a known finding
     if r.get("error") and c.get("astropy") and r.get("stage") == "construct":
         return fails   # astropy is absent in this environment: the comoving-volume converter cannot be built (recorded)
     if r.get("error"):
@@ -665,7 +701,8 @@ def block_terms(c, r):
                         raise Unclassified("ComovingDistanceConverter (spline lookup) has no model")
                 terms.append("(blk_rtb " + rtb_block({k: v for k, v in kw.items() if k not in ("allowed_bounds", "allow_both", "converter_kwargs")} if cls != "DistanceReparameterisation" else kw,
                                                      p, c["bounds"][p], edge, upd, pre_power) + ")")
-                specs.append({"ins": [p], "outs": [pp], "aux": "fold" if edge in ("lower", "upper") else None})
+                specs.append({"ins": [p], "outs": [pp], "aux": "fold" if edge in ("lower", "upper") else None,
+                              "fold_threshold": 1.0 if kw.get("post_rescaling") == "exp" else 0.0})
         elif cls in ("ScaleAndShift", "Rescale"):
             unknown = set(kw) - {"scale", "shift", "estimate_scale", "estimate_shift"}
             if unknown:
@@ -784,7 +821,8 @@ def observations(c, r, specs):
             ins.append(cL(dy(v) for v in vals))
             if s["aux"] == "fold":
                 v = r["xp"][s["outs"][0]][j]
-                sg = -1.0 if (v < 0 or (v == 0 and math.copysign(1.0, v) < 0)) else 1.0
+                thr = s.get("fold_threshold", 0.0)
+                sg = -1.0 if (v != v or v < thr or (v == 0 and thr == 0.0 and math.copysign(1.0, v) < 0)) else 1.0
                 if outside_fold(c, r, s["ins"][0], row):
                     sg = -sg
                 auxs.append(dy(sg))
@@ -1185,8 +1223,39 @@ def angle_wrap_row(c, r, i):
     return False
 
 
+def merged_kwargs(c):
+    """[(class, merged kwargs, parameter spec)] of the explicitly configured reparameterisations of a config."""
+    out = []
+    table = c.get("_registry_gw") if c.get("gw") else c.get("_registry")
+    if not table:
+        import c07_registry
+        reg = c07_registry.registry()
+        table = dict(reg["default_gw"], **reg["default_reparameterisations"]) if c.get("gw") else reg["default_reparameterisations"]
+    for key, cfg in (c.get("reparameterisations") or {}).items():
+        if key in c["names"]:
+            name = cfg.get("reparameterisation") if isinstance(cfg, dict) else cfg
+            extra = {k: v for k, v in (cfg.items() if isinstance(cfg, dict) else []) if k not in ("reparameterisation", "parameters")}
+            ent = table.get("None" if name is None else name)
+            if ent:
+                out.append((ent[0], dict(ent[1], **extra), key))
+        elif key in table and isinstance(cfg, dict):
+            out.append((table[key][0], dict(table[key][1], **{k: v for k, v in cfg.items() if k != "parameters"}), cfg.get("parameters")))
+    return out
+
+
 def finding_key(c, r, suffix, i, key):
     """Semantic identity of a failing input (used to match known findings)."""
+    mk = merged_kwargs(c)
+    if suffix.startswith("raised:run") and r.get("error") == "ValueError" and len(c["points"]) == 1 and "broadcast" in r.get("msg", ""):
+        return "C07:single-point-batch-with-duplication"
+    if suffix.startswith("raised:run") and r.get("error") == "KeyError" and c.get("update") is None and any(
+            cls in ("ScaleAndShift", "Rescale") and (kw.get("estimate_scale") or kw.get("estimate_shift"))
+            and isinstance(par, str) and len(par) > 1 for cls, kw, par in mk):
+        return "C07:scaleandshift-str-parameter-before-update"
+    if any(cls in ("RescaleToBounds", "DistanceReparameterisation") and kw.get("post_rescaling") in ("logit", "log")
+           and kw.get("boundary_inversion") for cls, kw, par in mk):
+        if suffix in ("nan-forward", "nonfinite-forward", "logj-sum") or suffix.startswith("roundtrip"):
+            return "C07:inversion-with-log-or-logit-post"
     if suffix.startswith("roundtrip") and i is not None and angle_wrap_row(c, r, i):
         return "C07:angle-inverse-wrap"
     if (suffix.startswith("roundtrip") or suffix == "logj-sum") and i is not None:
